@@ -1019,7 +1019,11 @@ package main
 // modes within JRWPA keeping A.
 //@ func replyOfflineTopicSetSub(sess *Session, msg *ClientComMessage)
 //@   requires [C06] sess != nil && msg != nil && msg.Set != nil
-//@   requires [C13,assumed] routed: len(msg.RcptTo) >= 3 && (hasPrefix(msg.RcptTo, "usr") || hasPrefix(msg.RcptTo, "p2p") || hasPrefix(msg.RcptTo, "grp") || hasPrefix(msg.RcptTo, "chn") || hasPrefix(msg.RcptTo, "fnd") || hasPrefix(msg.RcptTo, "sys"))
+// (any name can arrive here - Session.set routes unknown spellings unchanged - so nothing is assumed about msg.RcptTo
+// itself. What keeps the category look-up safe is that it happens only after the requester's subscription row was
+// found: rows exist only for topics that were created, see the store's contract of Subs.Get. The channel spelling is
+// routed under the group's name, Session.expandTopicName.)
+//@   requires [C13,assumed] channel_spelling_routed_as_group: types.IsChannel(msg.Original) ==> len(msg.RcptTo) >= 3 && hasPrefix(msg.RcptTo, "grp")
 //@   modifies *
 //@   assert at call store.SubsPersistenceInterface.Update [C06] no_ownership_gained_offline: ("ModeWant" in $3) ==> (hasO(modeWant) ==> gotWantHasO)
 //@   assert at call store.SubsPersistenceInterface.Update [C06] no_ownership_dropped_offline: ("ModeWant" in $3) && !hasPrefix(msg.RcptTo, "p2p") ==> (gotWantHasO ==> hasO(modeWant))
